@@ -174,7 +174,13 @@ let () =
         Hashtbl.iter (fun id (bk : book) ->
           if id <> kk && Hashtbl.fold (fun pat _ acc -> acc || reaches pat kk) bk.flts false then Hashtbl.replace tainted id ()) books in
       let host = intern "H" in
+      (* (sender, path) changed by an all-quiet command of that sender: out of the mirror statement of every other session
+         from then on (mirror_converges_announced); a command mixing quiet and announced changes: quiet_by above *)
+      let stale : (int * string) list ref = ref [] in
+      let snapshot () = List.map (fun nd -> (path_str nd.n_path, payload_str nd.n_data)) (sv_tree ops (w_srv ops !w)) in
       List.iteri (fun j op ->
+        let all_quiet_by = ref (-1) in
+        let before = snapshot () in
         let f = split ':' op in
         let code = List.hd f in
         let kk = match List.nth_opt f 1 with Some x -> (try int_of_string x with _ -> -1) | None -> -1 in
@@ -188,22 +194,31 @@ let () =
           else if code = "d" then (true, Some (EDetach (n_of_int kk)))
           else if code = "b" then begin
             let subs = (match List.nth_opt f 2 with Some x when x <> "" -> split '+' x | _ -> []) in
+            let nq = ref 0 and nc = ref 0 in
             let cmds = List.filter_map (fun so ->
                 let sf = split '~' so in
                 let pr = parse_cmd (book_of kk) (List.hd sf) (List.tl sf) in
-                if pr.quiet_all then quiet_by kk;
+                incr nc; if pr.quiet_all then incr nq;
                 if pr.taint_self then Hashtbl.replace tainted kk ();
                 pr.cmd) subs in
+            if !nq > 0 && !nq = !nc then all_quiet_by := kk else if !nq > 0 then quiet_by kk;
             (true, Some (ECmd (n_of_int kk, CBatch cmds)))
           end
           else begin
             let pr = parse_cmd (book_of kk) code (match f with _ :: _ :: r -> r | _ -> []) in
-            if pr.quiet_all then quiet_by kk;
+            if pr.quiet_all then all_quiet_by := kk;
             if pr.taint_self then Hashtbl.replace tainted kk ();
             match pr.cmd with Some c -> (true, Some (ECmd (n_of_int kk, c))) | None -> (false, None)
           end in
         (match ev with Some e -> pw := pworld_step ops all_fixed !pw e | None -> pw := { !pw with pw_world = { (!pw).pw_world with w_last = [] } });
         w := (!pw).pw_world;
+        if valid && !all_quiet_by >= 0 then begin
+          let after = snapshot () in
+          List.iter (fun (p, v) -> match List.assoc_opt p after with
+                                   | Some v' when v' = v -> ()
+                                   | _ -> stale := (!all_quiet_by, p) :: !stale) before;
+          List.iter (fun (p, _) -> if not (List.mem_assoc p before) then stale := (!all_quiet_by, p) :: !stale) after
+        end;
         let sv = w_srv ops !w in
         let b = Buffer.create 512 in
         Buffer.add_string b (Printf.sprintf "%d %s%s %s{" j code (if valid then "" else "!") (if net_mode then "N" else "M"));
@@ -264,6 +279,7 @@ let () =
                 let paths = List.map (fun nd -> nd.n_path) tr @ List.map fst c.c_mirror in
                 let bad = List.find_opt (fun p ->
                     (not (own_path ops ss p)) &&
+                    (not (List.exists (fun (snd_, sp) -> snd_ <> id && sp = path_str p) !stale)) &&
                     (let e = expected ops tr ss p and h = mirror_get c.c_mirror p in
                      match e, h with
                      | None, None -> false
